@@ -787,10 +787,16 @@ func (ev *evaluator) call(x *ECall) Val {
 			ev.fail("sinceLoop() is only available in loop invariants")
 		}
 		v := ev.eval(x.Args[0])
-		if _, ok := v.typ.Underlying().(*types.Slice); !ok {
+		var rt *T
+		switch v.typ.Underlying().(type) {
+		case *types.Slice:
+			rt = c.slRef(v.t)
+		case *types.Pointer:
+			rt = ev.term(v)
+		default:
 			ev.fail("sinceLoop of %s", v.typ)
 		}
-		return Val{t: mkOr(mkEq(c.slRef(v.t), refConst(0)), mkAnd(app("<=", "Bool", ev.st.lowRef(), c.slRef(v.t)), app("<", "Bool", c.slRef(v.t), ev.loopMark))), typ: types.Typ[types.Bool]}
+		return Val{t: mkOr(mkEq(rt, refConst(0)), mkAnd(app("<=", "Bool", ev.st.lowRef(), rt), app("<", "Bool", rt, ev.loopMark))), typ: types.Typ[types.Bool]}
 	case "sameSlice":
 		a, b := ev.eval(x.Args[0]), ev.eval(x.Args[1])
 		return Val{t: mkEq(a.t, b.t), typ: types.Typ[types.Bool]}
